@@ -679,7 +679,10 @@ class Array(DaskMethodsMixin):
         )
 
 
-def from_graph(layer, _meta, chunks, keys, name_prefix):
+def from_graph(layer, _meta, chunks, keys, name_prefix, rename=None):
+    if rename:
+        # dask.graph_manipulation renamed the output keys inside ``layer``
+        keys = [(rename.get(k[0], k[0]),) + tuple(k[1:]) for k in keys]
     return new_collection(
         FromGraph(
             layer=layer,
